@@ -1607,10 +1607,6 @@ func (p *Posix) CompleteMultipartUpload(ctx context.Context, input *s3.CompleteM
 
 	userMetaData := make(map[string]string)
 	objMeta := p.loadObjectMetaData(bucket, upiddir, nil, userMetaData)
-	err = p.storeObjectMetadata(f.File(), bucket, object, objMeta)
-	if err != nil {
-		return nil, err
-	}
 
 	objname := filepath.Join(bucket, object)
 	dir := filepath.Dir(objname)
@@ -1636,6 +1632,18 @@ func (p *Posix) CompleteMultipartUpload(ctx context.Context, input *s3.CompleteM
 		if err != nil {
 			return nil, fmt.Errorf("create object version: %w", err)
 		}
+	}
+
+	// attributes kept by path (sidecar store) belong to the object that is
+	// being replaced (it has been copied to the versioning directory above
+	// if needed): none of them may survive into the new object
+	err = p.meta.DeleteAttributes(bucket, object)
+	if err != nil {
+		return nil, fmt.Errorf("clear old attributes: %w", err)
+	}
+	err = p.storeObjectMetadata(f.File(), bucket, object, objMeta)
+	if err != nil {
+		return nil, err
 	}
 
 	// if the versioning is enabled, generate a new versionID for the object
@@ -3002,6 +3010,14 @@ func (p *Posix) PutObject(ctx context.Context, po s3response.PutObjectInput) (s3
 			return s3response.PutObjectOutput{}, err
 		}
 		versionID = nullVersionId
+	}
+
+	// attributes kept by path (sidecar store) belong to the object that is
+	// being replaced: none of them may survive into the new object
+	// (a no-op for xattrs, which live on the replaced inode)
+	err = p.meta.DeleteAttributes(*po.Bucket, *po.Key)
+	if err != nil {
+		return s3response.PutObjectOutput{}, fmt.Errorf("clear old attributes: %w", err)
 	}
 
 	for k, v := range po.Metadata {
